@@ -28,6 +28,7 @@ type Var struct {
 	Spelling string `json:"spelling"`       // abs | rel | dot | dslash | updown
 	CLI      bool   `json:"cli"`
 	PreExist bool   `json:"pre_exist,omitempty"` // longer files already sit at the output names
+	DupMixed bool   `json:"dup_mixed,omitempty"` // (case level) the first input is listed twice; in the variation the repeat uses the other spelling
 }
 
 // Case compares a variation with the baseline invocation.
@@ -58,6 +59,7 @@ func spell(p, cwd, how string) string {
 }
 
 var baselineOutputs map[string][]byte
+var dupInput bool
 
 func create(c Case, v Var) (map[string][]byte, string) {
 	root := run.Scratch("c17")
@@ -98,6 +100,17 @@ func create(c Case, v Var) (map[string][]byte, string) {
 	var paths []string
 	for _, n := range names {
 		paths = append(paths, spell(filepath.Join(dir, n), cwd, v.Spelling))
+	}
+	if dupInput && c.Format == "par2" {
+		// the first file is listed a second time; the variation spells the repeat differently from the first mention
+		other := "abs"
+		if v.Spelling == "abs" && v.DupMixed {
+			other = "rel"
+		}
+		if !v.DupMixed {
+			other = v.Spelling
+		}
+		paths = append(paths, spell(filepath.Join(dir, c.Files[0].Name), cwd, other))
 	}
 	if v.PreExist {
 		for n, b := range baselineOutputs {
@@ -162,6 +175,8 @@ func tail(b []byte) string {
 }
 
 func check(c Case) string {
+	dupInput = c.Var.DupMixed
+	defer func() { dupInput = false }()
 	base, msg := create(c, Var{G: 1, Cwd: "unrelated", Spelling: "abs"})
 	if msg != "" {
 		return "baseline: " + msg
@@ -205,6 +220,9 @@ func TestCheck(t *testing.T) {
 		}
 		if c.Var.PreExist {
 			rec.Class("outputs-pre-exist")
+		}
+		if c.Var.DupMixed {
+			rec.Class("input-listed-twice-with-mixed-spellings")
 		}
 		if len(c.Var.Perm) > 0 {
 			rec.Class("permuted-input-list")
@@ -272,7 +290,7 @@ func TestCheck(t *testing.T) {
 		c := Case{Format: rapid.SampledFrom([]string{"par2", "par2", "par1"}).Draw(rt, "format")}
 		v := Var{G: rapid.SampledFrom([]int{1, 1, 2, 3, 4, 8, 64}).Draw(rt, "g"), Cwd: rapid.SampledFrom([]string{"set", "parent", "unrelated"}).Draw(rt, "cwd"),
 			Spelling: rapid.SampledFrom([]string{"abs", "rel", "dot", "dslash", "updown"}).Draw(rt, "sp"), CLI: rapid.IntRange(0, 3).Draw(rt, "cli") == 0,
-			PreExist: rapid.IntRange(0, 3).Draw(rt, "preexist") == 0}
+			PreExist: rapid.IntRange(0, 3).Draw(rt, "preexist") == 0, DupMixed: rapid.IntRange(0, 4).Draw(rt, "dupmixed") == 0}
 		if c.Format == "par2" {
 			c.Slice = scen.GenSlice(rt)
 			ms := 60
